@@ -66,26 +66,27 @@ type directive = map[string]interface{}
 type plan = map[string]interface{}
 
 type result struct {
-	Prop     string          `json:"prop"`
-	World    string          `json:"world"`
-	Seed     uint64          `json:"seed"`
-	Verdict  string          `json:"verdict"`
-	Sig      string          `json:"sig"`
-	Msg      string          `json:"msg"`
-	At       string          `json:"at"`
-	Stats    stats           `json:"stats"`
-	Fired    []directive     `json:"fired"`
-	Checks   int             `json:"checks"`
-	Ops      int             `json:"ops"`
-	CaseHash string          `json:"case_hash"`
-	Trans    string          `json:"trans"`
-	Nontriv  bool            `json:"nontrivial"`
-	Probes   map[string]int  `json:"probes"`
-	Known    []string        `json:"known"`
-	Tail     []string        `json:"tail"`
-	Plan     json.RawMessage `json:"plan"`
-	variant  string
-	races    []string
+	Prop       string          `json:"prop"`
+	World      string          `json:"world"`
+	Seed       uint64          `json:"seed"`
+	Verdict    string          `json:"verdict"`
+	Sig        string          `json:"sig"`
+	Msg        string          `json:"msg"`
+	At         string          `json:"at"`
+	Stats      stats           `json:"stats"`
+	Fired      []directive     `json:"fired"`
+	Checks     int             `json:"checks"`
+	Ops        int             `json:"ops"`
+	CaseHash   string          `json:"case_hash"`
+	Trans      string          `json:"trans"`
+	Nontriv    bool            `json:"nontrivial"`
+	Probes     map[string]int  `json:"probes"`
+	Known      []string        `json:"known"`
+	Tail       []string        `json:"tail"`
+	Plan       json.RawMessage `json:"plan"`
+	BatchFirst uint64          `json:"batch_first"`
+	variant    string
+	races      []string
 }
 
 type stats struct {
@@ -1111,6 +1112,39 @@ func finish(r *runner, prop, tier string, seed uint64, cfg propCfg, known []know
 			// this property (use-after-free symptoms depend on heap layout); report what replays
 			confirmed = true
 			v.Sig = x.Sig
+		}
+		if !confirmed && v.BatchFirst > 0 && v.BatchFirst < v.Seed && v.Seed-v.BatchFirst <= 256 {
+			// goom keeps process-global state (stale patch-table entries, size cache, bump pointer):
+			// replay the plan together with its predecessors in the same process
+			var plans []json.RawMessage
+			for s := v.BatchFirst; s <= v.Seed; s++ {
+				if p := r.genPlan(s); p != nil {
+					plans = append(plans, p)
+				}
+			}
+			pl, _ := json.Marshal(map[string]interface{}{"plans": plans})
+			if xb := r.replayPlan(pl, v.variant); xb != nil && xb.Verdict == "violation" && sigClass(xb.Sig) == sigClass(v.Sig) {
+				// shrink the prefix from the front
+				for len(plans) > 1 {
+					cand, _ := json.Marshal(map[string]interface{}{"plans": plans[1:]})
+					if xc := r.replayPlan(cand, v.variant); xc != nil && xc.Verdict == "violation" && sigClass(xc.Sig) == sigClass(v.Sig) {
+						plans = plans[1:]
+					} else {
+						break
+					}
+				}
+				rf := replayFile{Property: prop, World: v.World, Variant: v.variant, RepoHead: head, RepoDirty: dirty, Signature: xb.Sig,
+					Message: xb.Msg, At: xb.At, Seed: v.Seed, Minimised: false, Plans: plans}
+				name := fmt.Sprintf("%s-%s-%d.json", prop, sanitize(v.Sig), v.Seed)
+				path := filepath.Join(outDir, "replays", name)
+				bb, _ := json.MarshalIndent(rf, "", " ")
+				os.WriteFile(path, bb, 0644)
+				reported++
+				fmt.Printf("violation class %s: %d plan(s); reproduces only after %d predecessor plan(s) in the same process (process-global goom state)\n  at %s\n  %s\n", v.Sig, len(group), len(plans)-1, xb.At, firstLines(xb.Msg, 12))
+				fmt.Printf("VIOLATION property=%s replay=%s\n", prop, path)
+				exit = 1
+				continue
+			}
 		}
 		if !confirmed {
 			got := "nothing"
